@@ -875,12 +875,14 @@ def refusal_cases(rng, n=6):
             "http POST as hyph=nil hyph=1 snapshot b:6", "http POST as hyph=fresh hyph=1 snapshot b:6",
             "http GET gcv hyph=latest:1 hyph=1 absent e", "http GET gcv hyph=nil hyph=1 absent e", "http GET gcv hyph=fresh hyph=2 absent e",
             "http GET snap - hyph=1 absent e", "http GET snap - hyph=2 absent e", "http PUT av hyph=latest:1 hyph=1 history b:6",
-            "http GET unknown1 - hyph=1 absent e", "http POST av hyph=latest:1 hyph=1 history-upper b:6"]
+            "http GET unknown1 - hyph=1 absent e", "http POST av hyph=latest:1 hyph=1 history-upper b:6",
+            "http POST av hyph=latest:1 hyph=1 history brk:5", "http POST as hyph=latest:1 hyph=1 snapshot brk:4,4",
+            "http POST av hyph=nil hyph=fresh history brk:3"]
     out = []
     for k in range(n):
         r = random.Random(rng.getrandbits(32))
         ops = state_prefix(r, (1, 2))
-        sel = r.sample(reqs, 10)
+        sel = r.sample(reqs, 12)
         for q in sel:
             ops += ["dumpall", "rows", q, "dumpall", "rows"]
         out.append(Case(f"c18-http-{k}", ops, {"http_refusals": True}, mode="http"))
@@ -902,6 +904,8 @@ def refusal_oracle(case, trace, backend):
             continue
         h, r = HOp(o), HResp(ri)
         mutating = r.status == 200 and h.route in ("av", "as")
+        if h.route in ("av", "as") and h.meth == "post" and not h.valid() and r.status == 200:
+            fails.append(f"op {i} `{o[:80]}`: a request that is to be refused (incomplete, empty or oversized body, wrong type) was answered 200")
         # an accepted AddSnapshot answers 200 as well as a declined one: only declined ones are listed in these cases
         if h.route == "as" and r.status == 200:
             mutating = not (h.seg == "0" or not h.valid())
